@@ -200,6 +200,7 @@ package twig
 //@   ensures[C01] !ret.extending && ret.currentBlock == nil && !ret.inParentCall && ret.lastLoadedTemplate == nil
 //@   ensures[C01] mapEmpty(ret.blocks) && mapEmpty(ret.parentBlocks) && mapEmpty(ret.macros)
 //@   ensures[C01] ret.context != nil && ret.context != context
+//@   ensures freshRef(ret.context) && freshRef(ret.blocks) && freshRef(ret.parentBlocks) && freshRef(ret.macros)
 //@   ensures[C01] forall k string :: has(ret.context, k) == (context != nil && has(context, k))
 //@   ensures[C01] forall k string :: context != nil && has(context, k) ==> ret.context[k] == context[k]
 //@ func (*RenderContext).Clone props: C06 C01
@@ -260,6 +261,7 @@ package twig
 // a pooled context either has no maps (Release) or four different ones (New)
 //@ pool renderContextPool
 //@   invariant x.blocks == nil || x.blocks != x.parentBlocks
+//@   invariant ownedFresh(x.context) && ownedFresh(x.blocks) && ownedFresh(x.parentBlocks) && ownedFresh(x.macros)
 
 // attribute cache invariant (C20), defined here because evictLRUEntries below uses it
 //@ define valMeth(T, A) (uf_hasMethod(T, A) && ufi_methNumIn(T, A) == 1)
@@ -324,13 +326,21 @@ package twig
 // ghost trace of abstract events (which node was evaluated/rendered in which context, in order)
 //@ ghost tr Tr
 // the event of rendering / evaluating a node is named, not interpreted (abstraction, no assumption)
+// What a call that is handed a context may change of existing engine state: that context's own
+// fields and maps (frame discharged for every function by the ctxframe obligations of C11); what it
+// does to caches, pools and the template cache is not visible to the callers' obligations.
+//@ group ctxeffects
+//@   modifies ctx.extending, ctx.currentBlock
+//@   modifies entries(ctx.context), entries(ctx.blocks), entries(ctx.parentBlocks), entries(ctx.macros)
 //@ iface Node.Render
 //@   assumed
+//@   use ctxeffects
 //@   ghostset tr emitRender(old(tr), recv, ctx)
 //@ func (*RenderContext).EvaluateExpression
 //@   assumed
+//@   use ctxeffects
 //@   ghostset tr emitEval(old(tr), node, ctx)
-//@   ensures err == nil ==> ret0 == evalRes(old(tr), node, ctx)
+//@   ensures err == nil ==> ret0 == evalRes(old(tr), node, ctx) && uf_evalOf(ret0, node, ctx)
 
 // if/elseif/else renders exactly one branch: the body of the first truthy condition (conditions are
 // evaluated in order, none after it), otherwise the else branch, otherwise nothing.
@@ -514,3 +524,21 @@ package twig
 //@   ensures[C20] err == nil && structCase() && uf_hasField(OT(), attr) && len(ufS_fieldPath(OT(), attr)) >= 1 && ufI_fieldByPathErr(OV(), ufS_fieldPath(OT(), attr)) == nil && uf_isValid(FV()) && uf_canIface(FV()) ==> ret0 == ufI_iface(FV())
 //@   ensures[C20] err == nil && structCase() && !uf_hasField(OT(), attr) && !valMeth(OT(), attr) && !ptrMeth(OT(), attr) ==> ret0 == nil
 //@   ensures[C20] err == nil && typeIs(obj, "map[string]interface{}") ==> ret0 == ite(has(unboxAs(obj, "map[string]interface{}"), attr), unboxAs(obj, "map[string]interface{}")[attr], nil)
+
+// ---------------------------------------------------------------- macros (C12)
+// Calling a macro binds each parameter to the corresponding argument, to the value of its default
+// expression when the argument is omitted, or to nil; extra arguments are ignored; the body runs in
+// a new context whose parent is the caller's context (parameters shadow, assignments stay local).
+// every binding made in the parameter loop is the one the statement prescribes for that position
+// (rangeindex + 1 is the position being bound), and is made in the macro's own context
+//@ func (*MacroNode).CallMacro props: C12
+//@   flag rely_tree yes
+//@   requires n.defaults != ctx.macros
+//@   loop 1 invariant[C12] 0 - 1 <= rangeindex && rangeindex < len(n.params) && macroCtx.parent == ctx && macroCtx != ctx && freshRef(macroCtx)
+//@   atcall (*RenderContext).SetVariable a0 == macroCtx && a1 == n.params[rangeindex + 1]
+//@   atcall (*RenderContext).SetVariable rangeindex + 1 < len(args) ==> a2 == args[rangeindex + 1]
+//@   atcall (*RenderContext).SetVariable rangeindex + 1 >= len(args) && !has(n.defaults, n.params[rangeindex + 1]) ==> a2 == nil
+//@   atcall (*RenderContext).SetVariable rangeindex + 1 >= len(args) && has(n.defaults, n.params[rangeindex + 1]) ==> uf_evalOf(a2, n.defaults[n.params[rangeindex + 1]], ctx)
+//@   atcall Node.Render a2 == macroCtx
+//@   atcall renderVariableString a1 == macroCtx
+//@   loop 2 invariant[C12] macroCtx.parent == ctx && macroCtx != ctx
